@@ -100,18 +100,34 @@ def layout_ops(rng, rounds, baseline=False, merges=("none", "none", "default", "
     return ops
 
 
+def staircase_ops(rng, rounds):
+    """One transaction per operation, never merging, then default-policy commits: many segments
+    of equal size, which is where the small-segment merge policy has to break ties."""
+    ops = []
+    flat = [op for rnd in rounds for op in rnd]
+    for i, op in enumerate(flat):
+        ops.append(["writer", {}])
+        ops.append(op)
+        last = i == len(flat) - 1
+        ops.append(["commit", {"merge": "default" if (last or (i >= 5 and rng.random() < 0.25)) else "none"}])
+    return ops
+
+
 def generate(seed, tier):
     from whoosim import seams
     seams.load_whoosh()
     crng = random.Random("%s/config" % seed)
     wrng = random.Random("%s/workload" % seed)
     mrng = random.Random("%s/mode" % seed)
-    want = [n for n in ("tc", "tv", "kw", "n", "so", "s", "b") if mrng.random() < 0.4]
+    want = [n for n in ("tc", "tv", "kw", "n", "so", "s", "b", "*_dyn") if mrng.random() < 0.4]
     cfg = RunConfig(crng, want=want)
     dg = DocGen(cfg, wrng, nkeys=16)
     deletes = mrng.random() < 0.6
-    rounds = gen_rounds(wrng, cfg, dg, mrng.randint(1, 4), deletes)
+    stairs = mrng.random() < 0.25
+    rounds = gen_rounds(wrng, cfg, dg, mrng.randint(3, 5) if stairs else mrng.randint(1, 4), deletes)
     layouts = [{"ops": layout_ops(wrng, rounds, baseline=True), "knobs": {}}]
+    if stairs:
+        layouts.append({"ops": staircase_ops(wrng, rounds), "knobs": {}})
     for i in range(mrng.randint(1, 3)):
         knobs = {"blocklimit": wrng.choice((1, 2, 3, 8, 128)),
                  "limitmb": wrng.choice((128, 1e-4, 1e-5)),
